@@ -2,7 +2,7 @@
 (* C17, B2: judges executions recorded from the REAL IoUring methods (harness/src/bin/ring.rs,*)
 (* a simulated kernel over the ring memory) against the property-level monitor RingAbs.      *)
 (* The trace (ndjson, IOEnv.TRACE) holds many runs separated by "reset" events:              *)
-(*   {"ev":"reset","run":k,"ns":2,"nc":2}                                                    *)
+(*   {"ev":"reset","run":k,"ns":2,"nc":2,"arr":[0,1]}   arr: submission index array after set-up *)
 (*   {"ev":"get","ret":slot|-1|-2|-3}          get_next_sqe_slot (-1 None, -2 panic, -3 bad) *)
 (*   {"ev":"fill","slot":i,"stamp":s}          the application wrote the entry               *)
 (*   {"ev":"flush","ret":r|-2,"kavail":n}      flush_submission_queue; what the kernel sees  *)
@@ -20,7 +20,7 @@ VARIABLES i, a, run, nbad
 vars == <<i, a, run, nbad>>
 
 Step(e) ==
-    CASE e.ev = "reset"   -> A!AbsInit(e.ns, e.nc)
+    CASE e.ev = "reset"   -> A!AbsInitArr(e.ns, e.nc, e.arr)
       [] e.ev = "get"     -> A!AGetSlot(a, e.ret)
       [] e.ev = "fill"    -> A!AFill(a, e.slot, e.stamp)
       [] e.ev = "flush"   -> A!AFlush(a, e.ret, e.kavail)
